@@ -86,7 +86,7 @@ def h_neutralise(field: int, mask: int, tail: int, ind: int) -> bool:
 
 
 _F = ['a"b', "back\\slash", "nl\nx", "é☃", "</script>", "<!--", "", "'", "</SCRIPT x", "&amp;<", "\\/", "<\\/script>", " ", "]]>"]
-_T = ["", "plain", "<script>x</script>", "line\n", "</script>", "<div>é</div>", '<script type="application/json">{}</script>',
+_T = ["", "\nafter", "<script>x</script>", "line\n", "</script>", "<div>é</div>", '<script type="application/json">{}</script>',
       "@@", '<script type="application/json" data-html-dependency>']
 
 
@@ -225,7 +225,7 @@ def _tree(k: int):
     if k == 0:
         return Tag("div", "x", a, Tag("span", b, "y", _add_ws=False))
     if k == 1:
-        return TagList(a, Tag("p", a2), g, "t")
+        return TagList(a, Tag("p", a2, b), g, "t")
     if k == 2:
         return Tag("div", "no deps")
     if k == 3:
